@@ -77,11 +77,11 @@ def gen_plan(run_seed: int, k: int, tier: str) -> dict:
         gsel[name] = bundled[name]
     if rng.random() < 0.35:
         # random grammars are shared by a few consecutive runs of one worker (reference cache)
-        grng = random.Random(common.derive_seed("C15-rg", k % 16, (k // 16) // 4))
         for i in range(rng.randint(1, 2)):
-            gsel[f"R{i}"] = pool.random_grammar(grng)
+            gseed = common.derive_seed("C15-rg", k % 16, (k // 16) // 4, i)
+            gsel[f"R{i}"] = pool.random_grammar(random.Random(gseed))
             if rng.random() < 0.4:
-                tw = pool.twin_of(gsel[f"R{i}"])
+                tw = pool.random_grammar(random.Random(gseed), reverse_choices=True)
                 if tw["text"] != gsel[f"R{i}"]["text"]:
                     gsel[f"R{i}t"] = tw
     if not gsel:
